@@ -58,6 +58,7 @@ type specTables struct {
 }
 
 type recorder struct {
+	last event // the event emitted last (retrace)
 	mu   sync.Mutex
 	w    *bufio.Writer
 	f    *os.File
@@ -79,6 +80,7 @@ func (r *recorder) emit(e event) {
 	r.mu.Lock()
 	r.seq[e.G]++
 	e.Seq = r.seq[e.G]
+	r.last = e
 	b, _ := json.Marshal(&e)
 	r.w.Write(b)
 	r.w.WriteByte('\n')
